@@ -6,15 +6,18 @@ NOTE_COMMON = ("Trusted base: CPython 3.12, CrossHair 0.0.110 proxy semantics an
                "Stubs (DESIGN section 2): value-level wire model instead of JSON text (S1), constant exception texts (S4), logging off (S5), "
                "formatting of symbolic non-string values renders a constant (S13). Every explored path is re-run on its concrete witness in the plain "
                "interpreter against the unstubbed code with real json text and must agree. ")
-CHECKS = {
- 'C06': dict(
-   text="Bounded symbolic model checking of the real from_json/append/extend code: for every skeleton of the per-member JSON-kind alphabet "
-        "(full product in the thorough tier) all integer/string/bool/float leaves are z3 variables and CrossHair enumerates the path tree to exhaustion; "
-        "oracle: only DeserializationError/IdentityError may escape, acceptance implies structural validity, failed append/extend leaves the batch and its id set unchanged. "
-        "A confirmed obligation holds for ALL leaf values of that skeleton; skeletons outside the listed alphabets are outside the claim.",
-   ref='5 C06', note=NOTE_COMMON + "Bounds: nesting depth 1 inside params/result/data; batches <= 2 (quick) / 3 (thorough) elements; histories <= 3 / 4 operations; two symbolic string ids are bounded to length 2 / 3.",
-   technique="symbolic execution of the real code (CrossHair core + z3), exhaustive path enumeration per concrete skeleton, counterexample replay"),
-}
+TECH = "symbolic execution of the real code (CrossHair core + z3), exhaustive path enumeration per concrete skeleton, concrete witness cross-validation, counterexample replay"
+CHECKS = {}
+for _i in IDS:
+    try:
+        _m = importlib.import_module('props.' + _i.lower())
+    except ModuleNotFoundError:
+        continue
+    if hasattr(_m, 'MANIFEST'):
+        c = dict(_m.MANIFEST)
+        c['note'] = NOTE_COMMON + c['note']
+        c.setdefault('technique', TECH)
+        CHECKS[_i] = c
 NA_REASON = {}
 def main():
     checks, na = [], []
